@@ -451,7 +451,7 @@ def coq_outcome(o):
     return "EvalErr TypeErr"
 
 
-def coq_codes(ctx, atoms_by_topo, items, shard=300):
+def coq_codes(ctx, atoms_by_topo, items, shard=300, fn="codes"):
     """items: [(case_index, topo_index, string, outcome)] -> ({case_index: code}, errors).  One coqc per shard,
     4 at a time; only (index, code) pairs with code != 0 are printed by Coq and parsed here."""
     from concurrent.futures import ThreadPoolExecutor
@@ -470,8 +470,8 @@ def coq_codes(ctx, atoms_by_topo, items, shard=300):
         body.append(";\n".join("(%d%%nat, (%d%%nat, %s, %s))" % (ci, ti, cstr(s), coq_outcome(o)) for ci, ti, s, o in sh))
         body.append("].")
         body.append('Definition tag := "CODES"%string.')
-        body.append("Eval vm_compute in (tag, List.length cases, codes gen_cfg topos cases).")
-        return ctx.coqc_text("c12_cases_%d_%d" % (id(items) % 100000, si), "\n".join(body) + "\n", timeout=1200)
+        body.append("Eval vm_compute in (tag, List.length cases, %s gen_cfg topos cases)." % fn)
+        return ctx.coqc_text("c12_%s_%d_%d" % (fn, id(items) % 100000, si), "\n".join(body) + "\n", timeout=1200)
 
     res, errors = {}, []
     with ThreadPoolExecutor(max_workers=4) as ex:
@@ -486,6 +486,27 @@ def coq_codes(ctx, atoms_by_topo, items, shard=300):
             for a, b in re.findall(r"\((\d+)(?:%nat)?,\s*(\d+)(?:%nat)?\)", m.group(2)):
                 res[int(a)] = int(b)
     return res, errors
+
+
+REF_WORDS = None
+
+
+def table_status(ctx):
+    """(tables literally as found?, documented meanings present?, operator order conventional?) of the regenerated
+    tables, decided by Coq"""
+    if getattr(ctx, "_c12_status", None) is None:
+        rc, out = ctx.coq_eval(["MD.Select.Syntax", "MD.Select.Model", "MD.Select.Run", "MD.Gen.SelectTables"],
+                               "(tables_as_found gen_cfg, documented_meaning gen_cfg, order_conventional gen_cfg)")
+        m = re.search(r"=\s*\((true|false),\s*(true|false),\s*(true|false)\)", out)
+        if rc != 0 or not m:
+            ctx.break_("correspondence:coqc-evaluation(table status)", out[-1500:])
+            ctx._c12_status = (True, True, False)
+        else:
+            ctx._c12_status = tuple(x == "true" for x in m.groups())
+        ctx.notes.setdefault("coverage_extra", {})["source_tables"] = {
+            "literally_as_found_reference": ctx._c12_status[0], "documented_meanings_present": ctx._c12_status[1],
+            "operator_order_conventional": ctx._c12_status[2]}
+    return ctx._c12_status
 
 
 def nontrivial(s):
@@ -575,6 +596,27 @@ def run_cases(ctx, topo_specs, cases, sentinel=True):
             json.dump([{"s": cases[i]["s"], "impl": outs[i], "code": codes.get(i, 0), "stream": cases[i]["stream"],
                         "topo": cases[i]["topo"]} for i in in_model if codes.get(i, 0)], fh, indent=0)
     budget = {}
+    as_found, _doc_ok, _conv = table_status(ctx)
+    if not as_found:
+        # the source tables differ from the as-found reference: compare with the documented tables as well, on the
+        # strings that use documented spellings only
+        t = getattr(ctx, "tables", None) or {}
+        new_words = (set(t.get("selkw", {})) | {o.strip() for l in t.get("levels", []) for o in l["ops"]}) - (
+            KEYWORD_WORDS | {"segment_id", "segname", "n_bonds"} | set(AND_SP + OR_SP + CMP_SP + ["not", "!", "=~"]))
+        ditems = [it for it in items if not any(w in new_words for w in re.findall(r"[A-Za-z_]+|[^A-Za-z_\s]+", it[2]))]
+        dcodes, derrs = coq_codes(ctx, atoms_by_topo, ditems, fn="doc_codes")
+        if derrs:
+            ctx.break_("correspondence:coqc-evaluation(documented)", "\n".join(derrs))
+        nbad = 0
+        for i in sorted(dcodes, key=lambda i: len(cases[i]["s"])):
+            if codes.get(i, 0) & 8:
+                continue
+            nbad += 1
+            if nbad <= 25:
+                ctx.fail("a documented keyword or operator no longer has its documented meaning", full_case(cases[i], topo_specs),
+                         observed=list(outs[i]), expected="Coq: select_str (documented gen_cfg)",
+                         tags={"kind": "documented_meaning"})
+        ctx.notes["coverage_extra"]["differs_from_documented_tables"] = nbad
 
     def fail(kind, desc, i, expected, tags):
         budget[kind] = budget.get(kind, 0) + 1
@@ -662,18 +704,125 @@ def build_cases(ctx):
     return specs, cases
 
 
+def gen_simple(rng):
+    """a parenthesis-free, operator-free condition or a single comparison (clear of every precedence question)"""
+    while True:
+        t = gen_atomic(rng)
+        if t[0] in ("kw", "in", "range"):
+            return join(toks(t, "conv", rng), rng, 0.0)
+        if t[0] == "cmp" and t[2][0] == "kw" and t[3][0] == "lit":
+            return join(toks(t, "conv", rng), rng, 0.0)
+
+
+def meta_checks(rng, ntopo, n):
+    """metamorphic and naive oracles evaluated on the implementation alone (fully parenthesised, depth <= 2)"""
+    checks = []
+    names = ["CA", "C", "N", "O", "H1", "OW", "NA", "ZZ"]
+    for _ in range(n):
+        ti = rng.randrange(ntopo)
+        x, y, z = gen_simple(rng), gen_simple(rng), gen_simple(rng)
+        r = rng.random()
+        if r < 0.15:
+            o = rng.choice(AND_SP)
+            checks.append({"topo": ti, "kind": "and", "lhs": "(%s) %s (%s)" % (x, o, y), "parts": [x, y]})
+        elif r < 0.3:
+            o = rng.choice(OR_SP)
+            checks.append({"topo": ti, "kind": "or", "lhs": "(%s) %s (%s) %s (%s)" % (x, o, y, o, z), "parts": [x, y, z]})
+        elif r < 0.4:
+            checks.append({"topo": ti, "kind": "not", "lhs": "%s(%s)" % (rng.choice(["not ", "!"]), x), "parts": [x]})
+        elif r < 0.5:
+            checks.append({"topo": ti, "kind": "same", "lhs": "(%s)" % x, "parts": [x]})
+        elif r < 0.6:
+            k = rng.choice(["index", "resid", "resSeq", "chainid", "n_bonds"])
+            a, b = sorted([rng.randint(0, 12), rng.randint(0, 12)])
+            checks.append({"topo": ti, "kind": "same", "lhs": "%s %d to %d" % (k, a, b),
+                           "parts": ["(%s >= %d) and (%s <= %d)" % (k, a, k, b)]})
+        elif r < 0.7:
+            k = rng.choice(["name", "resname", "symbol"])
+            vs = rng.sample(names, 3)
+            checks.append({"topo": ti, "kind": "or", "lhs": "%s %s" % (k, " ".join(vs)), "parts": ["%s == %s" % (k, v) for v in vs]})
+            checks.append({"topo": ti, "kind": "same", "lhs": "%s %s" % (k, vs[0]), "parts": ["%s == '%s'" % (k, vs[0])]})
+        elif r < 0.8:
+            pairs = [("resname", "resn"), ("resid", "resi"), ("residue", "resSeq"), ("type", "element"), ("element", "symbol"),
+                     ("segment_id", "segname"), ("code", "rescode"), ("code", "resc")]
+            a, b = rng.choice(pairs)
+            lit = gen_lit(rng)
+            checks.append({"topo": ti, "kind": "same", "lhs": "%s %s" % (a, lit), "parts": ["%s %s" % (b, lit)]})
+            a, b = rng.choice([("protein", "is_protein"), ("water", "waters"), ("water", "is_water"), ("backbone", "is_backbone"),
+                               ("sidechain", "is_sidechain"), ("all", "everything"), ("none", "nothing")])
+            checks.append({"topo": ti, "kind": "same", "lhs": a, "parts": [b]})
+            a, b = rng.choice([("<", "lt"), ("<=", "le"), ("==", "eq"), ("!=", "ne"), (">=", "ge"), (">", "gt")])
+            v = rng.randint(0, 12)
+            checks.append({"topo": ti, "kind": "same", "lhs": "index %s %d" % (a, v), "parts": ["index %s %d" % (b, v)]})
+        else:
+            q = rng.random()
+            if q < 0.25:
+                k, v = rng.choice(["name", "resname", "symbol", "segment_id"]), rng.choice(names + ["ALA", "HOH", "A", "B"])
+                checks.append({"topo": ti, "kind": "naive", "lhs": "%s %s" % (k, v), "attr": k, "op": "==", "value": v})
+                checks.append({"topo": ti, "kind": "naive", "lhs": "%s != '%s'" % (k, v), "attr": k, "op": "!=", "value": v})
+            elif q < 0.5:
+                k, v = rng.choice(["index", "resid", "resSeq", "chainid"]), rng.randint(0, 10)
+                o = rng.choice(["==", "!=", "<", "<=", ">", ">="])
+                checks.append({"topo": ti, "kind": "naive", "lhs": "%s %s %d" % (k, o, v), "attr": k, "op": o, "value": v})
+                checks.append({"topo": ti, "kind": "naive", "lhs": "%s %d %d" % (k, v, v + 2), "attr": k, "op": "in", "value": [v, v + 2]})
+                checks.append({"topo": ti, "kind": "naive", "lhs": "%s %d to %d" % (k, v, v + 3), "attr": k, "op": "range",
+                               "value": [v, v + 3]})
+            elif q < 0.7:
+                v = rng.choice([0.5, 1.5, 5, 12.5, 13, 15, 20])
+                o = rng.choice(["<", "<=", ">", ">="])
+                checks.append({"topo": ti, "kind": "naive", "lhs": "mass %s %s" % (o, v), "attr": "mass", "op": o, "value": v})
+            else:
+                checks.append({"topo": ti, "kind": "naive", "lhs": "water", "attr": "water", "op": "truth", "value": None})
+    return checks
+
+
+def run_meta(ctx, specs, n):
+    """standard-residue oracles use topologies built from standard residues only"""
+    checks = meta_checks(ctx.rng, len(specs), n)
+    std = topo_spec([[("ALA", 1, "A"), ("GLY", 2, "A"), ("SER", 3, "A")], [("HOH", 1, ""), ("SOL", 2, ""), ("NA", 3, "")]])
+    specs = list(specs) + [std]
+    for attr, lhs in (("protein_std", "protein"), ("backbone_std", "backbone"), ("water", "water")):
+        checks.append({"topo": len(specs) - 1, "kind": "naive", "lhs": lhs, "attr": attr, "op": "truth", "value": None})
+    out = ctx.run_impl("select_impl.py", {"mode": "meta", "topologies": specs, "checks": checks})
+    for b in out["bad"][:25]:
+        ctx.fail("Topology.select violates %s" % {"and": "and = intersection", "or": "or = union", "not": "not = complement",
+                                                   "same": "an equivalence of two spellings",
+                                                   "naive": "the direct attribute comparison"}[b["kind"]],
+                 {"topo_spec": specs[b["topo"]], "s": b["lhs"], "stream": "meta", "meta": b}, observed=b["observed"],
+                 expected=b["expected"], tags={"kind": "meta_" + b["kind"]}, stage="search")
+    for c in checks:
+        ctx.count({"topo": c["topo"], "s": c["lhs"], "meta": c["kind"]}, nontrivial=True, bucket="meta/" + c["kind"])
+    return len(out["bad"])
+
+
 def correspond(ctx):
     specs, cases = build_cases(ctx)
     ctx.log("cases:", len(cases))
     run_cases(ctx, specs, cases)
+    # sentinel: the model-free oracles on a small budget
+    run_meta(ctx, specs, 80 if ctx.tier == "quick" else 1500)
 
 
 def search(ctx, broken):
-    pass
+    """a proof or the tie broke and the comparison found no failing input: run the model-free oracles (set algebra of
+    sub-selections, range/list expansions, alias equivalences, direct attribute comparison) on a larger stream"""
+    specs = fixed_topologies() + [random_topology(ctx.rng) for _ in range(6)]
+    n = run_meta(ctx, specs, 1500 if ctx.tier == "quick" else 8000)
+    ctx.log("search: %d oracle failures" % n)
 
 
 def replay(ctx, rec):
     c = dict(rec["case"])
+    if c.get("stream") == "meta":
+        b = dict(c["meta"])
+        b["topo"] = 0
+        for k in ("observed", "expected"):
+            b.pop(k, None)
+        out = ctx.run_impl("select_impl.py", {"mode": "meta", "topologies": [c["topo_spec"]], "checks": [b]})
+        for x in out["bad"]:
+            ctx.fail(rec["desc"], rec["case"], observed=x["observed"], expected=x["expected"], tags=rec.get("tags"),
+                     stage="search")
+        return
     spec = c.pop("topo_spec")
     c["topo"] = 0
     c.setdefault("stream", "replay")
